@@ -101,7 +101,7 @@ def _parse_elems(rest):
 
 def run(module, cfg=None, cfg_text=None, *, workers=16, env=None, simulate=None, depth=None,
         seed=None, coverage=False, timeout=900, dfs=False, deadlock=False, extra=(), name=None,
-        must_complete=True):
+        must_complete=True, _retried=False):
     """Run TLC on spec/<module>.tla with spec/<cfg> or a generated cfg text."""
     tla = os.path.join(SPEC, module + '.tla')
     if not os.path.exists(tla):
@@ -200,7 +200,11 @@ def run(module, cfg=None, cfg_text=None, *, workers=16, env=None, simulate=None,
         if in_trace and len(r.trace) < 4000:
             r.trace.append(line)
     if must_complete and not r.completed and r.error is None:
-        raise MachineryError('TLC did not complete: %s\n%s' % (r.cmd, r.stdout[-3000:]))
+        if not _retried:
+            # the JVM went away without a verdict (seen once, with three soaks running side by side): run it again, once
+            return run(module, cfg, cfg_text, workers=workers, env=env, simulate=simulate, depth=depth, seed=seed, coverage=coverage,
+                       timeout=timeout, dfs=dfs, deadlock=deadlock, extra=extra, name=name, must_complete=must_complete, _retried=True)
+        raise MachineryError('TLC did not complete (twice, exit code %s): %s\n%s' % (r.rc, r.cmd, r.stdout[-3000:]))
     if r.error and r.error.startswith('other:') and must_complete:
         raise MachineryError('TLC failed (%s): %s\n%s' % (r.error, r.cmd, r.stdout[-3000:]))
     return r
